@@ -204,6 +204,23 @@ def gen_full(rng, size="small", force=None):
         if "speed" not in ve and not use_matrix and "defaults" not in inp:
             ve["speed"] = 10
     opts = gen_options(rng)
+    if F["capacity"] and rng.random() < (force or {}).get("capacity_objective", 0.2):
+        # capacity as an objective: the constraint of one resource (or of all) switched off, its excess penalised instead
+        names = set()
+        for x in stops + vehicles:
+            for key in ("quantity", "capacity"):
+                q = x.get(key)
+                if isinstance(q, dict):
+                    names |= set(q)
+                elif q is not None:
+                    names.add("default")
+        if names:
+            res = rng.choice(sorted(names))
+            if rng.random() < 0.5:
+                opts["constraints"]["disable"]["capacity"] = True
+            else:
+                opts["constraints"]["disable"]["capacities"] = [res]
+            opts["objectives"]["capacities"] = "name=%s;factor=%s;offset=%s" % (res, rng.choice(["1.0", "10.0", "0.5"]), rng.choice(["0.0", "5.0"]))
     return inp, opts, {k: bool(v) for k, v in F.items()} | {"matrix": use_matrix, "time_dependent": td}
 
 
